@@ -174,6 +174,8 @@ func runC02(p *Prog, r *Report) {
 	c02InnerLocked(p, r)
 	// R7: every pool change resets the rotation state, so the selection loop never runs on a level computed for another pool (shared with C01.R2)
 	r.Borrow(p, runC01, map[string]string{"C01.R2": "C02.R7"}, nil)
+	// R8: the sweep re-arms the level exactly at level <= 0, so a level of 0 (at which zero-weight servers qualify) is never swept (shared with C01.R7)
+	r.Borrow(p, runC01, map[string]string{"C01.R7": "C02.R8"}, nil)
 }
 
 // c02InnerLocked (R6): the rebalancer keeps its shadow list and the wrapped balancer's pool in step by
@@ -373,6 +375,37 @@ func rbMirrorAndReset(p *Prog, r *Report, pools []poolInfo, rule string) {
 		}
 		r.Check(badInner == nil, rule, what+": mirrored into the wrapped balancer", p.FuncPos(m), "every successful return has passed the wrapped balancer's "+mn, "a successful return is reachable without changing the wrapped balancer"+posOf(p, badInner))
 		r.Check(badReset == nil, rule, what+": reset() on success", p.FuncPos(m), "every successful return has passed reset() (configured weights re-applied to the wrapped balancer)", "a successful return is reachable without reset()"+posOf(p, badReset))
+		// a failed add is rolled back: once the wrapped balancer accepted the server, every failing return
+		// passes RemoveServer on that same wrapped balancer (the rebalancer's own remove routine looks the
+		// server up in the shadow list first, where it is not yet, and does nothing)
+		if mn == "UpsertServer" {
+			for _, c := range Calls(m) {
+				call, ok := c.(*ssa.Call)
+				if !ok {
+					continue
+				}
+				cc, isInv := IsInvoke(call, "UpsertServer")
+				if !isInv {
+					continue
+				}
+				undo := func(in ssa.Instruction) bool {
+					c2, ok := IsInvoke(in, "RemoveServer")
+					return ok && sameValue(c2.Value, cc.Value)
+				}
+				for _, t := range NilTests(m, resultValue(call, errorResultIndex(cc.Signature()))) {
+					var bad *ssa.Return
+					for x := range Reach(m, t.If, undo, func(e Edge) bool { return !(e.B == t.NonNil.B && e.K == t.NonNil.K) }) {
+						if ret, ok := x.(*ssa.Return); ok {
+							if isNil, known := returnErrIsNil(ret, errIdx); known && !isNil {
+								bad = ret
+							}
+						}
+					}
+					r.Paths++
+					r.Check(bad == nil, rule, what+": a failed add is undone in the wrapped balancer", p.InstrPos(call), "every failing return after the wrapped balancer accepted the server passes its RemoveServer", "a failing return is reachable after the wrapped balancer accepted the server without removing it there again"+posOf(p, bad)+": the server keeps receiving traffic although the add failed and the rebalancer does not know it")
+				}
+			}
+		}
 		// ordering: no shadow-list store before the inner call; reset only after the shadow update
 		var impl []*ssa.Function
 		impl = append(impl, m)
@@ -563,6 +596,49 @@ func c02Identity(p *Prog, r *Report, pools []poolInfo) {
 	r.Fn(FName(idFn))
 	got := strings.Join(urlFieldsRead(idFn), ",")
 	r.Check(got == want, "C02.R4", "roundrobin identity function "+FName(idFn)+": compares {Scheme,Host,Path}", p.FuncPos(idFn), "fields compared: "+got, "server identity is (scheme, host, path) but the identity function reads {"+got+"}")
+	// exactness: each field is compared as it is (==) with the same field of the other URL; a transformed
+	// comparison (trimmed, lower-cased, ...) merges distinct servers into one
+	for _, f := range []*ssa.Function{idFn, p.Func("roundrobin/stickycookie", "areURLEqual")} {
+		if f == nil {
+			continue
+		}
+		bad := ""
+		pos := p.FuncPos(f)
+		for _, b := range f.Blocks {
+			for _, in := range b.Instrs {
+				ld, ok := in.(*ssa.UnOp)
+				if !ok || ld.Op != token.MUL {
+					continue
+				}
+				n, fld, _, ok := fieldOf(ld.X)
+				if !ok || n == nil || n.Obj().Pkg() == nil || n.Obj().Pkg().Path() != "net/url" || n.Obj().Name() != "URL" {
+					continue
+				}
+				for _, ref := range *ld.Referrers() {
+					bo, isBo := ref.(*ssa.BinOp)
+					okRef := false
+					if isBo && (bo.Op == token.EQL || bo.Op == token.NEQ) {
+						other := bo.X
+						if other == ssa.Value(ld) {
+							other = bo.Y
+						}
+						if ol, ok := other.(*ssa.UnOp); ok && ol.Op == token.MUL {
+							if n2, f2, _, ok := fieldOf(ol.X); ok && n2 == n && f2 == fld && ol != ld {
+								okRef = true
+							}
+						}
+					}
+					if _, isDbg := ref.(*ssa.DebugRef); isDbg {
+						okRef = true
+					}
+					if !okRef {
+						bad, pos = "URL."+fld+" is not compared directly with the other URL's "+fld+" ("+ref.String()+")", p.InstrPos(ref)
+					}
+				}
+			}
+		}
+		r.Check(bad == "", "C02.R4", "identity function "+FName(f)+": fields compared exactly", pos, "every URL field read is an operand of ==/!= against the same field of the other URL", bad+": two different servers can be identified with each other (removing one removes the other, adding one updates the other)")
+	}
 	// every lookup function calls it and does no other URL comparison
 	nl := 0
 	for _, fn := range p.PkgFuncs("roundrobin") {
